@@ -80,24 +80,32 @@ def run(rep):
               ok_detail='0..size_of(type of the push-constant variable)')
     # ---- stage set -------------------------------------------------------------------------------------------------------------------
     # the second component returned by the function
+    # the Some(..) returned by the function: a pair / two-field struct holding the range and the stage expression (or the constant built from it)
     ret = None
     if summ[0] == 'alt':
         for c, v in summ[1]:
-            if v[0] == 'opt' and v[2][0] == 'tuple' and len(v[2][1]) == 2:
+            if v[0] == 'opt' and components(v[2]) is not None:
                 ret = v
     if ret is None:
         rep.bad('C13.iff', 'two-halves', where, 'the range and the stage expression are not produced together as one Option<(range, stages)>', undecided=True)
         return
-    rep.check(ret[1] == TRUE and E.find_templates(ret[2][1][0], lambda t: t is rt), 'C13.iff', 'two-halves', where, 'range and stages are not the two halves of one Some((range, stages))',
+    comps = components(ret[2])
+    rng_c = [x for x in comps if E.find_templates(x, lambda t: t is rt)]
+    oth_c = [x for x in comps if not E.find_templates(x, lambda t: t is rt)]
+    rep.check(ret[1] == TRUE and len(rng_c) == 1 and len(oth_c) == 1, 'C13.iff', 'two-halves', where, 'range and stages are not the two halves of one Some((range, stages))',
               ok_detail='Some((range, stages))')
     none_arms = [(c, v) for c, v in summ[1] if v[0] == 'propagate']
     rep.check(len(none_arms) == 1 and len(summ[1]) == 2, 'C13.iff', 'none-iff-absent', where, 'None is not returned exactly when no push-constant variable exists', ok_detail='None iff no push-constant variable')
-    stages = ret[2][1][1]
+    if len(oth_c) != 1:
+        return
+    stages = oth_c[0]
+    if stages[0] == 'tmpl' and 'pub const PUSH_CONSTANT_STAGES : wgpu :: ShaderStages = #' in E.tmpl_text(stages) and len(E.holes(stages)) == 1:
+        stages = list(E.holes(stages).values())[0]      # the constant is built next to the range
     arg = stages_argument(stages)
     nameT = ('f', G, 'name')
     getT = ('mcall', mapP, 'get', [('unwrap', nameT)])
     want_arg = ('alt', [(('and', [('t', ('is_some', nameT)), ('t', ('is_some', getT))]), ('unwrap', getT)), (TRUE, fbP)])
-    rep.check(arg == want_arg, 'C13.stages', 'stage-lookup', where,
+    rep.check(arg is not None and E.decision_list(arg) == E.decision_list(want_arg), 'C13.stages', 'stage-lookup', where,
               f'the stage set is {E.show(arg, maxdepth=8) if arg else None}; expected exactly `global_stages.get(name of the push-constant variable)` with fallback `entry_stages` '
               f'(when the variable is used the set must be the map entry itself, no stage may be added)', ok_detail='stages = map.get(variable name) else entry stages')
     # ---- top-level wiring ------------------------------------------------------------------------------------------------------------
@@ -118,7 +126,9 @@ def run(rep):
                   'push_constant_ranges is not a single optional range', ok_detail='&[<optional range>]')
         # where is the const?  an Option-valued hole of the output
         const_holder = []
-        E.walk(top, lambda x: const_holder.append(x) if x[0] == 'opt' and x[2] is cs[0] else None)
+        E.walk(top, lambda x: const_holder.append(x) if x[0] == 'opt' and E.find_templates(x[2], lambda t: t is cs[0]) else None)
+        # the innermost Option holding the constant
+        const_holder = [x for x in const_holder if not any(y is not x and E.find_templates(x[2], lambda t: t is cs[0]) and contains(x[2], y) for y in const_holder)]
         okw = rng is not None and rng[0] == 'opt' and E.find_templates(rng[2], lambda t: 'wgpu :: PushConstantRange {' in E.tmpl_text(t)) and len(const_holder) == 1 and const_holder[0][1] == rng[1]
         rep.check(bool(okw), 'C13.iff', f'const-iff-range:{tq}', tw,
                   'the PUSH_CONSTANT_STAGES constant and the range are not present under the same condition', ok_detail='both present iff a push-constant variable exists')
@@ -159,6 +169,21 @@ def run(rep):
         rep.check(rows_ok, 'C13.fallback', f'entry-stages:{tq}', tw,
                   f'the fallback stage set is not the union of the stages of all entry points ({detail or E.show(fb, maxdepth=5)})', ok_detail='all entry points, stage table Vertex/Fragment/Compute (evaluated on model entry lists)')
     rep.analysed = {'function': q, 'template': rt[1], 'top_level': tops}
+
+
+def contains(t, sub):
+    hit = []
+    E.walk(t, lambda x: hit.append(1) if x is sub else None)
+    return bool(hit)
+
+
+def components(v):
+    """the two components of a pair / two-field struct value, or None"""
+    if v[0] == 'tuple' and len(v[1]) == 2:
+        return list(v[1])
+    if v[0] == 'struct' and len(v[2]) == 2:
+        return list(v[2].values())
+    return None
 
 
 def strip_cast(t):
